@@ -251,6 +251,7 @@ func (m *motionModel) onObjCall(a *tsRun, s *tsState, f *frame, in ssa.CallInstr
 				a.violation(s, in.(ssa.Instruction), "O1", "ring-moved-with-current-frame-unwritten", "the pre-trigger ring advances while the motion recording is open and the current frame has not been written to it (frame skipped)")
 			}
 			s.pers["slot"] = 0
+			s.ghosts["markedWhileOpen"] = 0
 			bump(s.ghosts, "moved")
 			if vin != nil {
 				f.regs[vin] = val{k: kTok, n: tokCur}
@@ -261,6 +262,10 @@ func (m *motionModel) onObjCall(a *tsRun, s *tsState, f *frame, in ssa.CallInstr
 				a.violation(s, in.(ssa.Instruction), "O2", "mark-on-recorded-slot", "SetAsOldest marks a slot whose frame was already written to the motion recording (it would be written again)")
 			}
 			s.ghosts["marked"] = 1
+			if s.sinks[roleMotion] == 1 {
+				// marking just before the stop is as good as just after it, provided nothing is written or moved in between
+				s.ghosts["markedWhileOpen"] = 1
+			}
 			if vin != nil {
 				f.regs[vin] = val{k: kTok, n: tokCur}
 			}
@@ -282,6 +287,9 @@ func (m *motionModel) onSinkEvent(a *tsRun, s *tsState, f *frame, in ssa.CallIns
 	cc := in.Common()
 	switch method {
 	case "WriteFrame":
+		if role == roleMotion {
+			s.ghosts["markedWhileOpen"] = 0
+		}
 		if len(cc.Args) >= 1 && a.get(f, cc.Args[len(cc.Args)-1]).k == kTok {
 			if role == roleMotion {
 				if s.pers["slot"] == 1 {
@@ -301,7 +309,10 @@ func (m *motionModel) onSinkEvent(a *tsRun, s *tsState, f *frame, in ssa.CallIns
 		if s.sinks[role] == 1 {
 			bump(s.ghosts, "stop:"+rn)
 			if role == roleMotion {
-				s.ghosts["marked"] = 0 // a mark is required after this stop
+				if s.ghosts["markedWhileOpen"] != 1 {
+					s.ghosts["marked"] = 0 // a mark is required after this stop
+				}
+				s.ghosts["markedWhileOpen"] = 0
 				s.ghosts["needMark"] = 1
 			}
 		}
